@@ -45,7 +45,7 @@ func c01Events(r *c01Req, ops []vOp, calls []vIssueCall, foreignWrites []int64) 
 	torn := func(first, last int64) {
 		for i := 0; i+1 < len(foreignWrites); i += 2 {
 			if first <= foreignWrites[i+1] && foreignWrites[i] <= last {
-				evs = append(evs, c01Ev{float64(last) - 0.2, "TORN"})
+				evs = append(evs, c01Ev{float64(last) - 0.2, fmt.Sprintf("TORN:%d", r.id)})
 				return
 			}
 		}
